@@ -1,4 +1,5 @@
 """Drive the real Evolvent object and record what it returns as trace events for EvolventTrace.tla."""
+import itertools
 import math
 
 import numpy as np
@@ -66,15 +67,58 @@ def special_xs(rng, n, m, count):
     return [x for x in xs if 0.0 <= x <= 1.0]
 
 
+_BKIND = itertools.count()
+
+
+def typed_bounds(lo, up, kind):
+    """the same bounds in another representation: float64 arrays, Python lists of floats, and - for integral bounds such as [-1, 1]
+    (what the repository's tests and GKLS pass) - lists of Python ints or int64 arrays"""
+    integral = all(float(t).is_integer() for t in list(lo) + list(up))
+    if kind == "ints" and integral:
+        return [int(t) for t in lo], [int(t) for t in up]
+    if kind == "int64" and integral:
+        return np.array([int(t) for t in lo], dtype=np.int64), np.array([int(t) for t in up], dtype=np.int64)
+    if kind in ("list", "ints"):
+        return [float(t) for t in lo], [float(t) for t in up]
+    return np.array(lo, dtype=np.double), np.array(up, dtype=np.double)
+
+
 def scribbled(lo, up):
-    """bounds as float64 arrays for the Evolvent; returns (lo_arr, up_arr, scribble) - call scribble() after handing them over:
-    the caller reuses / overwrites its own arrays, the configured bounds are the values at configuration time"""
-    la, ua = np.array(lo, dtype=np.double), np.array(up, dtype=np.double)
+    """bounds for the Evolvent in rotating representations; returns (lo, up, scribble) - call scribble() after handing them over:
+    the caller reuses / overwrites its own arrays or lists, the configured bounds are the values at configuration time"""
+    la, ua = typed_bounds(lo, up, ["f64", "f64", "list", "ints", "f64", "int64"][next(_BKIND) % 6])
 
     def scribble():
-        la[:] = la * 3.0 + 17.0
-        ua[:] = ua * 0.5 - 5.0
+        if isinstance(la, list):
+            la[:] = [t * 3 + 17 for t in la]
+            ua[:] = [t * 2 - 5 for t in ua]
+        elif la.dtype == np.int64:
+            la[:] = la * 3 + 17
+            ua[:] = ua * 2 - 5
+        else:
+            la[:] = la * 3.0 + 17.0
+            ua[:] = ua * 0.5 - 5.0
     return la, ua, scribble
+
+
+def _total(method):
+    """a query of the real object that raises, or returns a non-finite number, is a recorded outcome (clauses QueryRaises / NonFinite)
+    of the event stream - not a crash of the recorder"""
+    import functools
+
+    @functools.wraps(method)
+    def wrapper(self, *a, **kw):
+        try:
+            return method(self, *a, **kw)
+        except ValueError as ex:
+            if "non-finite" not in str(ex):
+                self.events.append(dict(self._base("raises"), of=method.__name__, exc=type(ex).__name__, xf=repr(a[:1])))
+            else:
+                self.events.append(dict(self._base("nonfinite"), of=method.__name__, xf=repr(a[:1])))
+        except Exception as ex:      # noqa: BLE001
+            self.events.append(dict(self._base("raises"), of=method.__name__, exc=type(ex).__name__, xf=repr(a[:1])))
+        return None
+    return wrapper
 
 
 class EvoRecorder:
@@ -83,8 +127,8 @@ class EvoRecorder:
     def __init__(self, n, m, lo, up, events, idgen, rebound_from=None):
         self.n, self.m = n, m
         if rebound_from is not None:
-            lo0, up0 = rebound_from
-            self.ev = Evolvent(lo0, up0, n, m)
+            lo0, up0 = typed_bounds(rebound_from[0], rebound_from[1], ["ints", "f64", "int64", "list"][next(_BKIND) % 4])
+            self.ev = Evolvent(lo0, up0, n, m)      # (integral first bounds typed as ints: the bounds set afterwards are what counts)
             la, ua, scribble = scribbled(lo, up)
             self.ev.SetBounds(la, ua)
             scribble()
@@ -105,7 +149,11 @@ class EvoRecorder:
         scribble()
         self.lo, self.up = list(lo), list(up)
 
+    @_total
     def image(self, x, log=True):
+        return self._image(x, log)
+
+    def _image(self, x, log=True):
         y = self.ev.GetImage(x)
         y = [float(t) for t in y]
         if log:
@@ -114,7 +162,11 @@ class EvoRecorder:
             self.events.append(e)
         return y
 
+    @_total
     def inverse(self, y, via="inv", arg="array", log=True):
+        return self._inverse(y, via, arg, log)
+
+    def _inverse(self, y, via="inv", arg="array", log=True):
         if arg == "list":
             a = [float(t) for t in y]
         elif arg == "tuple":
@@ -135,27 +187,30 @@ class EvoRecorder:
             self.events.append(e)
         return x
 
+    @_total
     def roundtrip(self, x, via="inv"):
-        y = self.image(x)
-        x2 = self.inverse(y, via=via, log=False)
+        y = self._image(x)
+        x2 = self._inverse(y, via=via, log=False)
         e = self._base("roundtrip")
         e.update(x=q(x), x2=q(x2), xf=repr(x))
         self.events.append(e)
 
+    @_total
     def pair(self, x1, x2):
-        y1 = self.image(x1, log=False)
-        y2 = self.image(x2, log=False)
+        y1 = self._image(x1, log=False)
+        y2 = self._image(x2, log=False)
         e = self._base("pair")
         e.update(x1=q(x1), x2=q(x2), y1=qv(y1), y2=qv(y2), xf=[repr(x1), repr(x2)])
         self.events.append(e)
 
+    @_total
     def adjacent(self, i):
         """images of subintervals i and i+1 (any interior points)"""
         nm = self.n * self.m
         x1 = (i + 0.5) / 2.0 ** nm if nm <= 50 else i / 2.0 ** nm
         x2 = (i + 1.5) / 2.0 ** nm if nm <= 50 else (i + 1) / 2.0 ** nm
-        y1 = self.image(x1, log=False)
-        y2 = self.image(x2, log=False)
+        y1 = self._image(x1, log=False)
+        y2 = self._image(x2, log=False)
         e = self._base("adjacent")
         e.update(y1=qv(y1), y2=qv(y2), i=str(i))
         self.events.append(e)
